@@ -1,0 +1,76 @@
+//go:build verif
+
+package valuenotifier
+
+// Contracts for the value notifier (property C15, notifier clause: a listener's Wait succeeds only if Notify
+// for its value was called after the listener was created and before it was deregistered), read by the
+// verification machinery in /verif. Comment-only file.
+//
+// A listener waits on the channel of the entry it was created on; Wait returns nil iff that channel is closed.
+// A channel is closed by Notify (legitimate) or by removeListener when the entry's count drops to zero, which
+// is harmless exactly when count is the number of live listeners of that entry: then nobody is waiting any
+// more. So the clause reduces to the entry invariant below, with the ghost map live (entry -> number of
+// listeners created on it and not yet deregistered). A deregistration acts on behalf of the entry its listener
+// was created on (ghost cur); decrementing the count of whatever entry is currently registered for the value
+// - a newer one, after a Notify - breaks the invariant.
+
+/*@
+global live IntArr       -- entry -> listeners created on it that have not deregistered yet (ghost)
+global cur Int           -- the entry on whose behalf the running deregistration acts (ghost)
+
+type Notifier
+  monitor mutex level 4 guards
+  invariant self.listeners != nil && self.listeners.m != nil && self.listeners.opts != nil && unlocked(self.listeners.mutex)
+  invariant forall k T :: has(self.listeners.m, k) ==> self.listeners.m[k] != nil && self.listeners.m[k].count >= 1 && self.listeners.m[k].count == sel(live, self.listeners.m[k]) && self.listeners.m[k].channel != nil && !closed(self.listeners.m[k].channel)
+  invariant forall k1 T, k2 T :: has(self.listeners.m, k1) && has(self.listeners.m, k2) && k1 != k2 ==> self.listeners.m[k1] != self.listeners.m[k2] && self.listeners.m[k1].channel != self.listeners.m[k2].channel
+
+func New
+  instantiate T: string
+  ensures r0 != nil && inv(r0) && unlocked(r0.mutex)
+
+func newListener
+  requires true
+  ensures r0 != nil && fresh(r0) && r0.channel == channel
+
+func Notifier.Listener
+  instantiate T: string
+  opt sequential
+  opt assume-no-overflow          -- fewer than 2^63 listeners per value
+  requires v != nil && inv(v) && unlocked(v.mutex)
+  modifies ghost(live), listener.count, listener.channel, map(v.listeners.m)
+  ghost before call newListener #1: live = upd(live, valueListener, sel(live, valueListener) + 1)
+  ghost after call ShrinkingMap.Set: live = upd(live, v.listeners.m[value], 1)
+  ensures inv(v) && unlocked(v.mutex) && r0 != nil
+  ensures has(v.listeners.m, value) && r0.channel == v.listeners.m[value].channel
+
+func Notifier.removeListener
+  instantiate T: string
+  opt sequential
+  requires v != nil && inv(v) && unlocked(v.mutex) && sel(live, cur) >= 1
+  modifies ghost(live), listener.count, v.listeners.m, v.listeners.deletedKeys, map(v.listeners.m), chans
+  ghost after acquire: live = upd(live, cur, sel(live, cur) - 1)
+  ensures inv(v) && unlocked(v.mutex)
+
+-- the deregister closures: run at most once per listener (Listener.Deregister), for a listener that is still live
+func Notifier.Listener$1
+  instantiate T: string
+  requires v != nil && *v != nil && value != nil && inv(*v) && unlocked((*v).mutex)
+  modifies ghost(live), ghost(cur), listener.count, (*v).listeners.m, (*v).listeners.deletedKeys, map((*v).listeners.m), chans
+  ghost at entry: choose cur with sel(live, cur) >= 1
+  ensures inv(*v)
+func Notifier.Listener$2
+  instantiate T: string
+  requires v != nil && *v != nil && value != nil && inv(*v) && unlocked((*v).mutex)
+  modifies ghost(live), ghost(cur), listener.count, (*v).listeners.m, (*v).listeners.deletedKeys, map((*v).listeners.m), chans
+  ghost at entry: choose cur with sel(live, cur) >= 1
+  ensures inv(*v)
+
+-- closes the entry's channel (the only legitimate wake-up) and forgets the entry
+func Notifier.Notify
+  instantiate T: string
+  opt sequential
+  requires v != nil && inv(v) && unlocked(v.mutex)
+  modifies v.listeners.m, v.listeners.deletedKeys, map(v.listeners.m), chans
+  ensures inv(v) && unlocked(v.mutex) && !has(v.listeners.m, value)
+  ensures old(has(v.listeners.m, value)) ==> closed(old(v.listeners.m[value].channel))
+@*/
